@@ -494,7 +494,11 @@ def rule_for_to_while(text, ordinal, kind, log, label):
                 raise Undecided('%s: R3 enumerate pattern mismatch' % label)
             first = 'let %s = %s; let %s = %s%s[%s]; %s += 1;' % (pm.group(1), iv, pm.group(2), amp, e, iv, iv)
         else:
-            first = 'let %s = %s%s[%s]; %s += 1;' % (pat, amp, e, iv, iv)
+            if pat.strip().startswith('&') and amp == '&':
+                # `for &x in slice`: the element is copied out
+                first = 'let %s = %s[%s]; %s += 1;' % (pat.strip()[1:], e, iv, iv)
+            else:
+                first = 'let %s = %s%s[%s]; %s += 1;' % (pat, amp, e, iv, iv)
         rule = 'R3'
     elif kind == 'chars':
         m = re.match(r'^(.*)\.chars\(\)$', expr, re.S)
